@@ -734,6 +734,13 @@ class TimeTableCoordinate(BaseTableCoordinate):
     def n_inputs(self):
         return 1  # The time table has to be one dimensional
 
+    @property
+    def ndim(self):
+        """
+        Number of array dimensions to which this TableCoordinate corresponds.
+        """
+        return 1
+
     def is_scalar(self):
         return self.table.shape == tuple()
 
@@ -959,7 +966,7 @@ class MultipleTableCoordinate(BaseTableCoordinate):
 
         return dropped_world_dimensions
 
-    def interpolate(self, new_array_grids, **kwargs):
+    def interpolate(self, *new_array_grids, **kwargs):
         """
         Interpolate MultipleTableCoordinate to new array index grids.
 
@@ -978,8 +985,15 @@ class MultipleTableCoordinate(BaseTableCoordinate):
             New TableCoordinate object holding the interpolated coords.
 
         """
-        new_table_coordinates = [coord.interpolate(new_array_grids, **kwargs)
-                                 for coord in self.table_coords]
+        # Each table takes the grids of its own array dimensions, in order.
+        ndim = sum(coord.ndim for coord in self._table_coords)
+        if len(new_array_grids) != ndim:
+            raise ValueError(f"A new array grid must be given for each array axis, i.e. {ndim}")
+        new_table_coordinates = []
+        i = 0
+        for coord in self._table_coords:
+            new_table_coordinates.append(coord.interpolate(*new_array_grids[i:i+coord.ndim], **kwargs))
+            i += coord.ndim
         new_obj = type(self)(*new_table_coordinates)
         new_obj._dropped_coords = self._dropped_coords
         return new_obj
